@@ -112,7 +112,7 @@ static int tulist_load(const char *path, TuList *l) {
     while (fread(hdr, 1, 4, f) == 4) {
         uint32_t s = hdr[0] | hdr[1] << 8 | hdr[2] << 16 | (uint32_t)hdr[3] << 24;
         if (l->n == cap) { cap *= 2; l->tu = realloc(l->tu, cap * sizeof(void *)); l->sz = realloc(l->sz, cap * sizeof(uint32_t)); }
-        uint8_t *b = malloc(s + 32); memset(b, 0, s + 32); /* 32 bytes slack: by-construction exclusion of the known decoder over-read */
+        uint8_t *b = malloc(s ? s : 1); /* exact size: an over-read of the packet is visible to ASan */
         if (s && fread(b, 1, s, f) != s) { free(b); break; }
         l->tu[l->n] = b; l->sz[l->n] = s; l->n++;
     }
